@@ -54,8 +54,9 @@ def nameSimple (n : Str) : Bool :=
   !n.isEmpty && n.all (fun c => c ≠ '/' && c ≠ '\\' && c ≠ '[' && c ≠ ']' && c ≠ '=')
 
 /-- a key value the textual key parser of `addPathToTree` reads back unchanged (it knows no
-    escapes: the value ends at the first `]`). -/
-def keyValSimple (v : Str) : Bool := !v.isEmpty && v.all (fun c => c ≠ ']' && c ≠ '\\')
+    escapes: the value ends at the first `]`), and without `/` (so that the text of an element
+    holds no `/`). -/
+def keyValSimple (v : Str) : Bool := !v.isEmpty && v.all (fun c => c ≠ ']' && c ≠ '\\' && c ≠ '/')
 
 def elemOK (e : Elem) : Bool :=
   nameSimple e.name && Path.keysSorted e.keys && e.keys.all (fun kv => nameSimple kv.1 && keyValSimple kv.2)
